@@ -291,11 +291,19 @@ impl PeriodicStore {
     /// Verification hook: canonical dump of entries and scheduling state.
     pub fn verif_snapshot(&self) -> String {
         format!(
-            "periodic next={} interval={} expired={} entries={}",
+            "{} entries={}",
+            self.verif_sched_state(),
+            verif_entries(&self.data)
+        )
+    }
+
+    /// Verification hook: the scheduling state only (no entries).
+    pub fn verif_sched_state(&self) -> String {
+        format!(
+            "periodic next={} interval={} expired={}",
             verif_ns(self.next_cleanup),
             self.cleanup_interval.as_nanos(),
-            self.expired_count,
-            verif_entries(&self.data)
+            self.expired_count
         )
     }
 
